@@ -8,6 +8,7 @@ import YaegiVerif.Proofs.C05Lookup
 import YaegiVerif.Proofs.C05Sets
 import YaegiVerif.Proofs.C05Fuel
 import YaegiVerif.Proofs.C05Switch
+import YaegiVerif.Proofs.C05Recv
 /-
   C05 — property theorems: method calls and interface operations dispatch as in compiled Go.
   Statements a reader of the property cares about; helper lemmas are in Proofs/C05*.lean.
@@ -18,14 +19,14 @@ open YaegiVerif.Proofs.C05
 
 /-! ### ties to the source -/
 
-/-- the choices read from cfg.go / type.go are the ones the model was written for -/
+/-- the choices read from cfg.go / type.go / run.go are the ones the model was written for -/
 theorem facts_tie : Generated.C05.facts = Expected.C05.facts := by decide
 
 /-- the extractor recognised every construct it looks for -/
 theorem unrecognised_tie : Generated.C05.unrecognised = Expected.C05.unrecognised := by decide
 
-/-- the transcribed functions (and the selector case of cfg.go) are textually the ones the model
-    was written from -/
+/-- the transcribed functions (and the selector case and the two switch cases of cfg.go, the
+    receiver binding of genFunctionWrapper) are textually the ones the model was written from -/
 theorem source_tie : Generated.C05.sourceHashes = Expected.C05.sourceHashes := by decide
 
 abbrev EF : Facts := Expected.C05.facts
@@ -507,65 +508,71 @@ theorem typeswitch_first_match (mt : α → Bool) (cs : List (List α)) (i : Nat
     simp only [hf] at h
     exact Or.inr ⟨firstClause_none mt cs 0 hf, h⟩
 
-/-- the interpreter's clause order is the source order when there is no default clause or the
-    default clause is the last one (`defaultLast`); then, if its clause test agrees with the
-    specification's on the types of the clauses, the interpreter takes the clause Go takes -/
-theorem typeswitch_eq_spec_partial (mY mG : α → Bool) (cs : List (List α))
-    (hd : defaultLast cs = true) (hm : ∀ c ∈ cs, ∀ ty ∈ c, mY ty = mG ty) :
-    typeSwitchY true mY cs = typeSwitch mG cs := by
+/-- **the interpreter takes the clause Go takes, wherever the default clause stands**: when the
+    pre-order pass does not swap the default clause (`F.defaultSwap = false`) and the post-order pass
+    sends a failed clause to the next clause with a test and at last to the default clause
+    (`F.clauseChain = .nextTest`) — the values read from the source since ff01288 — and the
+    interpreter's clause test agrees with the specification's on the types of the clauses.
+    All clause lists: any number of clauses, any types, default clause anywhere or absent. -/
+theorem typeswitch_eq_spec (F : Facts) (hs : F.defaultSwap = false) (hc : F.clauseChain = .nextTest)
+    (mY mG : α → Bool) (cs : List (List α)) (hm : ∀ c ∈ cs, ∀ ty ∈ c, mY ty = mG ty) :
+    typeSwitchY F.defaultSwap F.clauseChain mY cs = typeSwitch mG cs := by
+  rw [hs, hc]
   unfold typeSwitchY typeSwitch
-  rw [clauseOrder_source true cs hd rfl, List.range_eq_range', firstInOrder_congr mY mG cs hm,
-    firstInOrder_range mG cs cs.length 0 (by simp)]
-  simp
+  simp only
+  rw [clauseOrder_noswap, firstInOrder_congr mY mG cs hm, firstInOrder_source]
 
+/-- the same for the facts regenerated from the source -/
+theorem typeswitch_eq_spec_generated (mY mG : α → Bool) (cs : List (List α))
+    (hm : ∀ c ∈ cs, ∀ ty ∈ c, mY ty = mG ty) :
+    typeSwitchY Generated.C05.facts.defaultSwap Generated.C05.facts.clauseChain mY cs = typeSwitch mG cs :=
+  typeswitch_eq_spec _ (by rw [facts_tie]; rfl) (by rw [facts_tie]; rfl) mY mG cs hm
 
 /-- **type switch on an operand of non-empty interface type**: when every clause lists struct or
-    pointer types and the default clause (if any) is last, the interpreter takes the clause Go
-    takes — for every declaration set, dynamic value (nil included) and clause list -/
-theorem typeswitch_typed_concrete_correct (D : Decls) (b : Bool) (dyn : Option Dyn) (cs : List (List TyRef))
-    (hd : defaultLast cs = true) (hc : ∀ c ∈ cs, ∀ ty ∈ c, concreteTy D ty = true) :
-    typeSwitchY true (matchCaseY D true b dyn) cs = typeSwitchG D (dynT dyn) cs := by
+    pointer types the interpreter takes the clause Go takes — for every declaration set, dynamic
+    value (nil included) and clause list, default clause anywhere -/
+theorem typeswitch_typed_concrete_correct (F : Facts) (hs : F.defaultSwap = false) (hc : F.clauseChain = .nextTest)
+    (D : Decls) (b : Bool) (dyn : Option Dyn) (cs : List (List TyRef))
+    (hcT : ∀ c ∈ cs, ∀ ty ∈ c, concreteTy D ty = true) :
+    typeSwitchY F.defaultSwap F.clauseChain (matchCaseY D true b dyn) cs = typeSwitchG D (dynT dyn) cs := by
   unfold typeSwitchG
-  exact typeswitch_eq_spec_partial _ _ cs hd (fun c hcm ty hty => matchCase_typed_concrete D b dyn ty (hc c hcm ty hty))
+  exact typeswitch_eq_spec F hs hc _ _ cs (fun c hcm ty hty => matchCase_typed_concrete D b dyn ty (hcT c hcm ty hty))
 
-/-- **what the repair would give**: if the default clause were moved to the end keeping the other
-    clauses in source order (`swap = false`), the clause order would be Go's for every clause list -/
-theorem typeswitch_noswap_correct (mt : α → Bool) (cs : List (List α)) :
-    typeSwitchY false mt cs = typeSwitch mt cs := by
-  unfold typeSwitchY typeSwitch clauseOrderY
-  have hr : firstInOrder mt cs (List.range cs.length) = firstClause mt cs 0 := by
-    rw [List.range_eq_range', firstInOrder_range mt cs cs.length 0 (by simp)]; simp
-  cases hd : defaultClause cs 0 with
-  | none => simp only [hr]
-  | some i =>
-    obtain ⟨_, he⟩ := defaultClause_empty cs 0 i hd
-    have hi : (cs.getD i []).any mt = false := by
-      have : cs.getD i [] = [] := by simpa using he
-      rw [this]; rfl
-    simp only [Bool.false_eq_true, if_false]
-    rw [firstInOrder_append, firstInOrder_filter mt cs i hi, hr]
-    cases firstClause mt cs 0 with
-    | some k => rfl
-    | none => simp only; rw [firstInOrder_cons, hi]; rfl
+/-- non-vacuity: the expected facts satisfy the hypotheses, and the clause list of F05-16 (default
+    clause first, both other clauses match) is decided as Go decides it -/
+example : EF.defaultSwap = false ∧ EF.clauseChain = .nextTest ∧
+    typeSwitchY EF.defaultSwap EF.clauseChain (fun (_ : Nat) => true) [[], [1], [2]] = some 1 ∧
+    typeSwitchY EF.defaultSwap EF.clauseChain (fun (_ : Nat) => false) [[1], [], [2]] = some 1 ∧
+    typeSwitchY EF.defaultSwap EF.clauseChain (fun (x : Nat) => x == 2) [[1], [], [2]] = some 2 := by decide
 
-/-- **witness (default clause not last)**: `switch { default: …; case IA: …; case IB: … }` on a
-    value that matches both: Go takes clause 1, the interpreter tests clause 2 first -/
+/-- **witness for the OLD fact values** (finding F05-16, before ff01288: `defaultSwap = true`,
+    `clauseChain = .nextClause`): `switch { default: …; case IA: …; case IB: … }` on a value that
+    matches both: Go takes clause 1, the interpreter tested clause 2 first. Nothing here is about
+    the current source. -/
 theorem typeswitch_default_swap_witness :
-    typeSwitchY true (fun (_ : Nat) => true) [[], [1], [2]] = some 2 ∧
+    typeSwitchY Expected.C05.oldDefaultSwap Expected.C05.oldClauseChain (fun (_ : Nat) => true) [[], [1], [2]] = some 2 ∧
     typeSwitch (fun (_ : Nat) => true) [[], [1], [2]] = some 1 ∧
-    clauseOrderY true [([] : List Nat), [1], [2]] = [2, 1, 0] ∧ defaultLast [([] : List Nat), [1], [2]] = false := by decide
+    clauseOrderY Expected.C05.oldDefaultSwap [([] : List Nat), [1], [2]] = [2, 1, 0] ∧
+    defaultLast [([] : List Nat), [1], [2]] = false := by decide
 
+/-- both facts matter: the old chaining on an unswapped list enters a default clause as soon as it
+    is reached (the clauses after it are never tested) -/
+theorem typeswitch_chain_witness :
+    typeSwitchY false .nextClause (fun (x : Nat) => x == 2) [[1], [], [2]] = some 1 ∧
+    typeSwitch (fun (x : Nat) => x == 2) [[1], [], [2]] = some 2 ∧
+    typeSwitchY true .nextTest (fun (_ : Nat) => true) [[], [1], [2]] = some 2 := by decide
 
 /-! ### calls: where the selector rule agrees, the call does -/
 
 /-- **a method call on a variable, a pointer or `&v`** is accepted or rejected, and executed
     (same method, same receiver storage, same output, same state), identically under the
-    interpreter's rules and under Go's whenever the selector is in `selDom` — for every
+    interpreter's rules and under Go's whenever the selector is in `selDom` and the two arms of the
+    receiver binding that serve value receivers copy (`hb`, the extracted values) — for every
     declaration set, environment and state -/
 theorem call_agrees_partial (F : Facts) (D : Decls) (e : SEnv) (s : St) (r : Recv) (m : String) (t : Nat)
     (hr : recvStatic e r = some (t, true))
     (hdyn : ∀ t' i s1, recvInst D s r = some (t', i, s1) → t' = t)
-    (h : selDom F D t m = true) :
+    (h : selDom F D t m = true) (hb : F.recvBind.ptrToVal = .set ∧ F.recvBind.same = .set) :
     checkStmt .yaegi F D e (.call r m) = checkStmt .go F D e (.call r m) ∧
     execStmt .yaegi F D e s (.call r m) = execStmt .go F D e s (.call r m) := by
   have hsel : selectY F D t m = select D t m := select_eq_spec_partial F D t m h
@@ -583,7 +590,7 @@ theorem call_agrees_partial (F : Facts) (D : Decls) (e : SEnv) (s : St) (r : Rec
         obtain ⟨t', i, s1⟩ := p
         have := hdyn t' i s1 hri
         subst this
-        simp only [sel, hsel]
+        simp only [sel, hsel, runSel_who F hb]
   | addr x =>
     constructor
     · simp only [checkStmt, hr, selLegal_agree F D t m hsel]
@@ -594,7 +601,7 @@ theorem call_agrees_partial (F : Facts) (D : Decls) (e : SEnv) (s : St) (r : Rec
         obtain ⟨t', i, s1⟩ := p
         have := hdyn t' i s1 hri
         subst this
-        simp only [sel, hsel]
+        simp only [sel, hsel, runSel_who F hb]
   | ptrvar x =>
     constructor
     · simp only [checkStmt, hr, selLegal_agree F D t m hsel]
@@ -605,7 +612,106 @@ theorem call_agrees_partial (F : Facts) (D : Decls) (e : SEnv) (s : St) (r : Rec
         obtain ⟨t', i, s1⟩ := p
         have := hdyn t' i s1 hri
         subst this
-        simp only [sel, hsel]
+        simp only [sel, hsel, runSel_who F hb]
+
+/-! ### receiver passing -/
+
+/-- the two arms of the receiver binding of `genFunctionWrapper` that serve methods with a value
+    receiver copy their operand into the fresh receiver slot (`dest.Set(src.Elem())`, `dest.Set(src)`) -/
+def recvCopies (F : Facts) : Prop := F.recvBind.ptrToVal = .set ∧ F.recvBind.same = .set
+
+instance (F : Facts) : Decidable (recvCopies F) := by unfold recvCopies; infer_instance
+
+/-- **a value receiver is a copy**: a method with a value receiver, invoked on any operand (`srcPtr`:
+    through a pointer — pointer variable, `&v`, last field of the promotion path embedded by pointer,
+    interface holding a pointer, method value bound from a pointer — or on a value), whatever
+    assignments to fields of its receiver its body makes (`body`: any sequence of `r.p = v` /
+    `r.p += d`, any paths, any values), leaves every cell that existed before the call unchanged,
+    except those the operand itself reaches through an embedded pointer (shared in Go as well).
+    Under Go's rules always; under the interpreter's when the binding copies (`recvCopies`, the
+    extracted value). All declaration sets, receiver types, storages and heaps. -/
+theorem value_receiver_is_copy (w : Who) (F : Facts) (hF : recvCopies F)
+    (D : Decls) (owner : Nat) (m : Meth) (hm : m.ptr = false) (srcPtr : Bool) (inst : Inst) (h : Heap)
+    (body : List Write) (a : Nat) (ha : a < h.length)
+    (hown : ∀ pa ∈ inst, viaPtr D owner pa.1 = true → pa.2 ≠ a) :
+    cell (runBody (recvStorage w F D owner m srcPtr inst h).1 body (recvStorage w F D owner m srcPtr inst h).2) a
+      = cell h a := by
+  have hgo : recvStorage w F D owner m srcPtr inst h = copyInst D owner inst h := by
+    cases w with
+    | go => simp [recvStorage, hm]
+    | yaegi => rw [recvStorage_who F hF]; simp [recvStorage, hm]
+  rw [hgo]
+  obtain ⟨⟨ext, hext⟩, hcells⟩ := copyInst_inv D owner inst h
+  rw [runBody_other _ a (by
+    intro pa hpa
+    rcases hcells pa hpa with hfresh | ⟨hin, hv⟩
+    · omega
+    · exact hown pa hin hv), hext, cell_append_lt h ext a ha]
+
+/-- **the caller's object is unchanged**: for a receiver type without embedded pointers the values
+    of the operand's storage after the body has run are the values before the call -/
+theorem value_receiver_caller_unchanged (w : Who) (F : Facts) (hF : recvCopies F)
+    (D : Decls) (owner : Nat) (m : Meth) (hm : m.ptr = false) (srcPtr : Bool) (inst : Inst) (h : Heap)
+    (body : List Write) (hin : ∀ pa ∈ inst, pa.2 < h.length) (hfree : ∀ pa ∈ inst, viaPtr D owner pa.1 = false) :
+    values inst (runBody (recvStorage w F D owner m srcPtr inst h).1 body (recvStorage w F D owner m srcPtr inst h).2)
+      = values inst h := by
+  unfold values
+  apply List.map_congr_left
+  intro pa hpa
+  obtain ⟨p, a⟩ := pa
+  simp only
+  rw [value_receiver_is_copy w F hF D owner m hm srcPtr inst h body a (hin (p, a) hpa)
+    (fun q hq hv => by rw [hfree q hq] at hv; exact absurd hv (by decide))]
+
+/-- the same for the facts regenerated from the source, under the interpreter's rules -/
+theorem value_receiver_is_copy_generated (D : Decls) (owner : Nat) (m : Meth) (hm : m.ptr = false) (srcPtr : Bool)
+    (inst : Inst) (h : Heap) (body : List Write) (hin : ∀ pa ∈ inst, pa.2 < h.length)
+    (hfree : ∀ pa ∈ inst, viaPtr D owner pa.1 = false) :
+    values inst (runBody (recvStorage .yaegi Generated.C05.facts D owner m srcPtr inst h).1 body
+      (recvStorage .yaegi Generated.C05.facts D owner m srcPtr inst h).2) = values inst h :=
+  value_receiver_caller_unchanged .yaegi _ (by rw [facts_tie]; decide) D owner m hm srcPtr inst h body hin hfree
+
+/-- **a pointer receiver is the address**: the body works on the operand's own storage, whatever
+    the facts are (`dest.Set(src.Addr())` and `d[numRet] = src.Addr()` designate the same storage) -/
+theorem pointer_receiver_is_address (w : Who) (F : Facts) (D : Decls) (owner : Nat) (m : Meth) (hm : m.ptr = true)
+    (srcPtr : Bool) (inst : Inst) (h : Heap) : recvStorage w F D owner m srcPtr inst h = (inst, h) := by
+  simp [recvStorage, hm]
+
+/-- `C{nc}` with `Bump` (value receiver) and `Inc` (pointer receiver); `M` embeds `*C`; `O` embeds
+    `M`; `IB = interface{ Bump() }` -/
+def rDecls : Decls :=
+  [ .strct "C" [⟨"nc", .int, 0⟩] [⟨"Bump", false, 0⟩, ⟨"Inc", true, 0⟩],
+    .strct "M" [⟨"nm", .int, 0⟩, ⟨"C", .embPtr, 0⟩] [],
+    .strct "O" [⟨"no", .int, 0⟩, ⟨"M", .emb, 1⟩] [],
+    .iface "IB" [⟨"Bump", false, 0⟩] [] ]
+
+/-- the facts with the first arm of the binding aliasing the pointee (`d[numRet] = src.Elem()`) -/
+def aliasFacts : Facts := { EF with recvBind := { EF.recvBind with ptrToVal := .slot } }
+
+/-- the four ways of reaching a value method through a pointer: pointer variable, promotion
+    through an embedded `*C`, interface holding `*C`, method value bound from a pointer -/
+def recvForms : List (List Stmt) :=
+  [ [.var "v" 0 1, .ptr "p" "v", .call (.ptrvar "p") "Bump", .call (.ptrvar "p") "Bump", .dump "v"],
+    [.var "v" 2 1, .call (.var "v") "Bump", .call (.var "v") "Bump", .dump "v"],
+    [.var "v" 0 1, .iface "i" (some 3) (.addr "v"), .call (.ifc "i") "Bump", .call (.ifc "i") "Bump", .dump "v"],
+    [.var "v" 0 1, .ptr "p" "v", .mval "g" (.ptrvar "p") "Bump", .callf "g", .callf "g", .dump "v"] ]
+
+/-- non-vacuity and regression: with the expected facts the four forms run as in Go (the object is
+    unchanged: each call prints the incremented copy, the dump the old value), the hypotheses of the
+    theorems hold, and the body of the generated methods writes its receiver -/
+example : recvCopies EF ∧ WF rDecls ∧ stdBody rDecls 0 = [.add [0] 1] ∧
+    recvForms.all (fun p => run .yaegi EF rDecls p == run .go EF rDecls p && classify EF rDecls p == "in-domain") = true ∧
+    run .go EF rDecls (recvForms.getD 0 []) = .ran [["C.Bump", "2"], ["C.Bump", "2"], ["v", "1"]] false ∧
+    run .go EF rDecls (recvForms.getD 1 []) = .ran [["C.Bump", "4"], ["C.Bump", "4"], ["v", "1", "2", "3"]] false := by decide
+
+/-- **witness (what the hypothesis excludes)**: if the first arm aliased the pointee, each of the
+    four forms would leave the caller's object modified — the model run with such facts differs from
+    Go on all of them -/
+theorem value_receiver_alias_witness :
+    ¬ recvCopies aliasFacts ∧
+    recvForms.all (fun p => run .yaegi aliasFacts rDecls p != run .go aliasFacts rDecls p) = true ∧
+    run .yaegi aliasFacts rDecls (recvForms.getD 0 []) = .ran [["C.Bump", "2"], ["C.Bump", "3"], ["v", "3"]] false ∧
+    run .yaegi aliasFacts rDecls (recvForms.getD 1 []) = .ran [["C.Bump", "4"], ["C.Bump", "5"], ["v", "1", "2", "5"]] false := by decide
 
 /-! ### witnesses at program level (the replay inputs of the known findings) -/
 
@@ -618,6 +724,16 @@ def wDecls : Decls :=
     .iface "II" [⟨"Inc", false, 0⟩] [],
     .iface "IGI" [] [2, 3],
     .strct "N" [⟨"nn", .int, 0⟩] [] ]
+
+/-- **regression of F05-16** at program level (the replay input of the finding): default clause
+    first, `case IG`, `case II` on `&v`: clause 1 under both rule sets with the current facts, and
+    the input is in no divergence class -/
+example :
+    (let p := [Stmt.var "v" 0 1, .iface "x" none (.addr "v"), .tswitch "x" true [[], [.named 2], [.named 3]], .dump "v"]
+     run .yaegi EF wDecls p = .ran [["case", "1"], ["v", "1"]] false ∧ run .go EF wDecls p = run .yaegi EF wDecls p ∧
+     classify EF wDecls p = "in-domain" ∧
+     run .yaegi { EF with defaultSwap := Expected.C05.oldDefaultSwap, clauseChain := Expected.C05.oldClauseChain } wDecls p
+       = .ran [["case", "2"], ["v", "1"]] false) := by decide
 
 /-- **F05**: `g := v.Get; (mutate v); g()`: Go bound a copy of `v` when `g` was evaluated (prints
     the old state), the interpreter reads `v` when `g` is called (prints the new state) -/
@@ -687,8 +803,7 @@ theorem assert_witnesses :
 
 /-- type switches: on an operand of non-empty interface type neither an interface clause nor
     `case nil` ever matches; on an `interface{}` operand holding a wrapped value every interface
-    clause matches in the binding form, and with the default clause first the last clause is tested
-    before the others -/
+    clause matches in the binding form (a `W` value matches `case interface{ Inc() }`) -/
 theorem typeswitch_witnesses :
     run .go EF wDecls [.var "v" 0 1, .iface "i" (some 2) (.addr "v"), .tswitch "i" false [[.named 3], []]]
       = .ran [["case", "0"]] false ∧
@@ -696,10 +811,10 @@ theorem typeswitch_witnesses :
       = .ran [["case", "1"]] false ∧
     run .go EF wDecls [.iface "i" (some 2) .nil, .tswitch "i" false [[.nil], []]] = .ran [["case", "0"]] false ∧
     run .yaegi EF wDecls [.iface "i" (some 2) .nil, .tswitch "i" false [[.nil], []]] = .ran [["case", "1"]] false ∧
-    run .go EF wDecls [.var "v" 0 1, .iface "x" none (.addr "v"), .tswitch "x" true [[], [.named 2], [.named 3]]]
+    run .go EF wDecls [.var "v" 0 1, .iface "x" none (.var "v"), .tswitch "x" true [[.named 3], [.named 2], []]]
       = .ran [["case", "1"]] false ∧
-    run .yaegi EF wDecls [.var "v" 0 1, .iface "x" none (.addr "v"), .tswitch "x" true [[], [.named 2], [.named 3]]]
-      = .ran [["case", "2"]] false := by decide
+    run .yaegi EF wDecls [.var "v" 0 1, .iface "x" none (.var "v"), .tswitch "x" true [[.named 3], [.named 2], []]]
+      = .ran [["case", "0"]] false := by decide
 
 /-- in-domain programs of every form agree (non-vacuity of the classes' complement) -/
 example :
